@@ -27,8 +27,8 @@ CLAIMED = {
     technique="bounded-exhaustive enumeration of a rule-document space and its complete distance-one perturbation neighbourhood against a reference consistency analysis and a reference template expander",
     design_ref="DESIGN.md §3 C12"),
   "C09": dict(level="model_checking", engine="E3",
-    text="Model checking of the real language server: (1) explicit-state BFS over canonical document-map states {doc -> (version, text)} for every open/change/close over 2 documents x versions {1,2,3} in any order (stale versions included) x 3 texts, each transition replayed on the real tower-lsp LspService<Backend> with handlers run to completion (100 states, 1 440 judged transitions + 2 360 crash probes for protocol-violating operations); (2) engine E3: for every protocol-valid history of <= 4 (thorough 5) notifications over a 7-operation alphabet, every environment schedule (Deliver next notification / client reads one server message / client answers the oldest server request, <= 4 handlers in flight in a real FuturesUnordered with the real bounded client channel) with <= 2 (thorough 3) deviations from drain-immediately/answer-promptly/deliver-when-idle (quick 8 843, thorough 283 571 schedules), executed in child processes under a watchdog so that a handler blocking the thread is reported as a hang. Oracle: at quiescence the last publishDiagnostics of every open document carries the highest received version and that text's findings. Part A (same findings across CLI output styles, --stdin, sg test and LSP) is merged into the same evidence by pychecks/c09_cli.py when present.",
-    note="The executor replaces real socket timing by explicit Deliver/Drain/Answer steps and reproduces Server::serve's structure, it is not Server::serve itself; states with equal reference document maps are merged; equal-version changes, re-open without close and change-before-open are only probed for crashes.",
+    text="Model checking of the real language server: (1) explicit-state BFS over canonical document-map states {doc -> (version, text)} for every open/change/close over 2 documents x versions {1,2,3} in any order (stale versions included) x 3 texts, each transition replayed on the real tower-lsp LspService<Backend> with handlers run to completion (100 states, 1 440 judged transitions + 2 360 crash probes for protocol-violating operations); (2) engine E3: for every protocol-valid history of <= 4 (thorough 5) notifications over a 7-operation alphabet, every environment schedule (Deliver next notification / client reads one server message / client answers the oldest server request, <= 4 handlers in flight in a real FuturesUnordered with the real bounded client channel) with <= 2 (thorough 3) deviations from drain-immediately/answer-promptly/deliver-when-idle (quick 8 843, thorough 283 571 schedules), executed in child processes under a watchdog so that a handler blocking the thread is reported as a hang. Oracle: at quiescence the last publishDiagnostics of every open document carries the highest received version and that text's findings. Part A (pychecks/c09_cli.py, merged under coverage.cli_layer): every subset of size 1..3 of 6 JavaScript rules (41 rule sets: all severities, messages with $A, $$$REST, a transformed variable, a constraint, a relational rule, two rules on one node) x every distinct text of <= 3 (thorough 4) elements of a 6-element line alphabet with/without final LF (19 434 / 116 850 pairs): the multiset of (rule id, byte range, message, severity) must be identical in the library, the diagnostics the real language server publishes on didOpen, and `scan --json=pretty|stream|compact`; `scan --stdin` must equal the file scan; `--format github` must agree on level/title/lines/message; `sg test --skip-snapshot-tests` must accept every source placed in the list the library predicts and reject every source placed in the wrong list.",
+    note="The executor replaces real socket timing by explicit Deliver/Drain/Answer steps and reproduces Server::serve's structure, it is not Server::serve itself; states with equal reference document maps are merged; equal-version changes, re-open without close and change-before-open are only probed for crashes. Part A: note/url/fix absent and message non-empty (LSP decorations outside the alphabet); BMP characters only; the GitHub format has no columns and cannot express `hint` (counted, not required); quick runs --stdin only for texts of <= 2 elements.",
     technique="explicit-state BFS over notification histories plus stateless deviation-bounded exploration of environment schedules on the real async handlers (controlled single-threaded executor)",
     design_ref="DESIGN.md §3 C09, Appendix B.2"),
   "C16": dict(level="exploration", engine="E1-CLI",
